@@ -210,6 +210,63 @@ def suite_layouts(ctx: Ctx, n: int):
     c05.flattened_multi_fault(ctx, n, oracle=oracle)
 
 
+def suite_policy_layouts(ctx: Ctx, n: int):
+    """models behind generated name_mapping options (nested paths, every extra_in policy): data with optional keys omitted,
+    unknown keys of any hashable type (None, ints, floats, tuples, strs mixed: mutually unorderable) at every mapping level, wrong
+    leaves and wrong branches - whatever is not acceptable ends in a LoadError, in all modes and both coercion settings"""
+    from adaptix import DebugTrail, Retort
+    from adaptix.load_error import LoadError
+
+    from harness import layouts
+    rng = ctx.rng
+    # the recorded finding, deterministically
+
+    from adaptix import ExtraKwargs, name_mapping
+
+    class KW:
+        def __init__(self, a: int, **kwargs):
+            self.a, self.kwargs = a, kwargs
+    r0 = Retort(recipe=[name_mapping(KW, extra_in=ExtraKwargs())])
+    ctx.note_case({"probe": "extra-kwargs-non-str-key"}, nontrivial=True, kind="probe:extra-kwargs-non-str-key")
+    try:
+        r0.load({"a": 1, 1.5: "x"}, KW)
+    except LoadError:
+        pass
+    except TypeError as e:
+        if "keywords must be strings" in str(e):
+            ctx.fail("escape:TypeError:extra-kwargs-non-str-key", "load({'a': 1, 1.5: 'x'}, KW) with extra_in=ExtraKwargs() lets TypeError "
+                     "(keywords must be strings) escape", {"probe": "extra-kwargs-non-str-key", "kind": "policy-layout"})
+    for i in range(n):
+        case = layouts.gen_case(rng, i)
+        cls = case["cls"]
+        try:
+            retorts = {(m, s): Retort(recipe=case["recipe"](), debug_trail=getattr(DebugTrail, m), strict_coercion=s) for (m, s) in morph.CONFIGS}
+            _x, good = case["good"](rng, retorts[("ALL", True)])
+        except Exception as e:  # noqa: BLE001
+            ctx.dist[f"policy-layout:not-built:{type(e).__name__}"] += 1
+            continue
+        for _ in range(5):
+            datum, tags = layouts.mutate(rng, case, good)
+            for cfg, r in retorts.items():
+                out = morph.run_real(r.get_loader(cls), datum)
+                c = dict(case["desc"], kind="policy-layout", datum=repr(datum)[:300], tags=tags, mode=cfg[0], strict=cfg[1])
+                ctx.note_case(c, nontrivial=out["r"] != "ok", kind=f"policy-layout:{case['extra_mode']}:{out['r']}"
+                              + (":odd-keys" if "unknown-odd-key" in tags else ""))
+                if out["r"] == "escape":
+                    sig = f"escape:{out['exc']}:policy-layout"
+                    if case["extra_mode"] == "kwargs" and out["exc"] == "TypeError":
+                        try:
+                            r.get_loader(cls)(datum)
+                        except TypeError as e:
+                            if "keywords must be strings" in str(e):
+                                sig = "escape:TypeError:extra-kwargs-non-str-key"
+                        except Exception:  # noqa: BLE001
+                            pass
+                    ctx.fail(sig, f"load of {datum!r:.160} through a name_mapping layout (extra_in="
+                             f"{case['extra_mode']}, {tags}) [{cfg[0]}, strict={cfg[1]}] lets {out['exc']} escape", c)
+                    break
+
+
 def set_of_any(ctx: Ctx, eng: morph.Engine):
     """a type Python CAN hold values of, fed unhashable elements"""
     from typing import Any
@@ -229,6 +286,7 @@ def run(ctx: Ctx):
     suite_containers(ctx, eng, n_specs=ctx.budget(120, 1500), depth=3 if ctx.tier == "quick" else 4)
     suite_user_leaves(ctx, eng, n_specs=ctx.budget(150, 1500), depth=3)
     suite_layouts(ctx, ctx.budget(60, 1000))
+    suite_policy_layouts(ctx, ctx.budget(60, 1000))
     set_of_any(ctx, eng)
     class_object_datum(ctx, eng)
 
@@ -241,6 +299,8 @@ def search(ctx: Ctx):
         suite_containers(ctx, eng, n_specs=600, depth=4)
     if not ctx.failures:
         suite_layouts(ctx, 600)
+    if not ctx.failures:
+        suite_policy_layouts(ctx, 600)
 
 
 def class_object_datum(ctx: Ctx, eng: morph.Engine):
